@@ -114,13 +114,22 @@ fn run_one_inner(quick: bool, verbose: bool) -> Outcome {
     let (len, wchunk, rbuf) = grid[explore::choose(grid.len() as u32, Kind::Free) as usize];
     // 0 AsyncRead, 1 readable()+read, 2 polled once under a first task, then handed to a second one
     let reader_flavour = explore::choose(3, Kind::Free);
-    let writer_flavour = explore::choose(3, Kind::Free); // 0 task (AsyncWrite), 1 raw peer, 2 task using writable()+write
+    // 0 task (AsyncWrite), 1 raw peer, 2 task using writable()+write; 3 / 4: as 0 / 2, but the task
+    // first polls readable() on the same adapter once and abandons that wait (a lost select! branch):
+    // the wait that follows is for the other direction
+    let writer_choice = explore::choose(5, Kind::Free);
+    let wprobe = writer_choice >= 3;
+    let writer_flavour = match writer_choice {
+        3 => 0,
+        4 => 2,
+        x => x,
+    };
     let pre_nb = explore::choose(2, Kind::Free) == 1;
     let end_into_inner = explore::choose(2, Kind::Free) == 1;
     out.decoded.push(format!(
         "len={len} wchunk={wchunk} rbuf={rbuf} reader={} writer={} pre_nonblocking={pre_nb} end={}",
         ["AsyncRead", "readable()", "handoff"][reader_flavour as usize],
-        ["task", "raw-peer", "writable()"][writer_flavour as usize],
+        ["task", "raw-peer", "writable()", "abandoned-readable()+task", "abandoned-readable()+writable()"][writer_choice as usize],
         if end_into_inner { "into_inner" } else { "drop" }
     ));
     let data = pattern(len);
@@ -240,6 +249,11 @@ fn run_one_inner(quick: bool, verbose: bool) -> Outcome {
             .schedule(async move {
                 let mut tx = tx;
                 let mut ok = true;
+                if wprobe {
+                    let fut = tx.readable();
+                    futures::pin_mut!(fut);
+                    let _ = futures::poll!(fut);
+                }
                 'outer: for chunk in data.chunks(wchunk) {
                     if fl == 0 {
                         if tx.write_all(chunk).await.is_err() {
@@ -383,7 +397,7 @@ fn run_one_inner(quick: bool, verbose: bool) -> Outcome {
     out.clauses.push("async-io");
     let cfgfeat = vec![
         ("reader", reader_flavour.to_string()),
-        ("writer", writer_flavour.to_string()),
+        ("writer", writer_choice.to_string()),
     ];
     if !(st.reader_done && writer_finished) {
         let rready = epoll::table(epfd);
@@ -407,6 +421,38 @@ fn run_one_inner(quick: bool, verbose: bool) -> Outcome {
                 &cfgfeat,
                 format!("read {} bytes, sent {}; first difference at {:?}", got.len(), data.len(), first_bad),
             ));
+        }
+    }
+    // ---- idle with live adapters: both tasks are done and handed their adapters back, nobody
+    // awaits either fd. One more byte arrives for the reader's fd (and the writer's fd is writable
+    // as ever): an adapter without a waiter must not keep the poller readable, or every
+    // dispatch(None) of the idle loop returns at once (the fd is armed one-shot per waiter).
+    if st.reader_done && writer_finished && st.io_err.is_none() {
+        out.clauses.push("idle-after-completion");
+        let wrote = if let Some(p) = raw_peer.as_mut() {
+            p.write(b"!").is_ok()
+        } else if let Some(tx) = st.tx_back.as_mut() {
+            tx.get_mut().write(b"!").is_ok()
+        } else {
+            false
+        };
+        for _ in 0..2 {
+            let _ = el.dispatch(Some(Duration::ZERO), &mut st);
+        }
+        if seqhooks::fd_readable(epfd) {
+            let mut features: BTreeMap<String, String> = cfgfeat.iter().map(|(k, v)| (k.to_string(), v.clone())).collect();
+            features.insert("extra_byte".into(), wrote.to_string());
+            out.violations.push(Violation {
+                props: vec!["C12".into(), "C17".into(), "C02".into()],
+                clause: "spurious-readiness".into(),
+                features,
+                message: format!(
+                    "both tasks completed and no future awaits the adapters, yet after two dispatches the poller is still readable: an idle loop would spin; epoll={:?}",
+                    epoll::table(epfd)
+                ),
+                tape: vec![],
+                decoded: vec![],
+            });
         }
     }
     // ---- release: blocking mode restored, fd gone from the poller
